@@ -129,7 +129,7 @@ def run(tier, seed):
     t0 = time.time()
     scs = scenarios(tier, seed)
     jobs = [{"kind": "plain", "scenario": sc} for sc in scs]
-    res = E.run_jobs(jobs, timeout=25 if tier == "quick" else 40)
+    res = E.run_jobs(jobs, timeout=60)
     docs = []
     for sc, r in zip(scs, res):
         if r.get("ok"):
